@@ -37,7 +37,7 @@ ASSUMPTIONS = ["diamond inheritance of one component and redeclaration of an inh
 BLOCKING = {"F15", "RE"}          # open findings: C07-F1, C07-F2
 
 
-def norm(m, view="C07"):
+def norm(m, view="C07", sole=None):
     """Canonical comparison form of a flat model (either side), restricted to what the property
     observes.  C07: variables in order with type / prefixes / dimensions, and the instance
     equations and the initial equations in order.  C08: variables in order with attributes / value, and the binding
@@ -57,6 +57,9 @@ def norm(m, view="C07"):
         out["ieqs"] = [list(e) for e in m.get("ieqs", [])]
         # which leaves have a declaration equation / unconnected-flow equation (their right sides: C08)
         out["bound"] = [e[0][1] for e in m["eqs"] if a05.is_sym_eq(e)]
+        if sole:
+            # right sides of the declaration equations nobody modifies (equations of their instance)
+            out["decl"] = sorted(a05.decl_rhs(m, sole).items())
     return out
 
 
@@ -122,7 +125,14 @@ def check_case(ctx, case, drv, stream="main"):
             raise HarnessError("the two renderers of the description disagree:\n%s\n---\n%s" % (ans["text"], text))
         if ans.get("err") == "fuel":
             ctx.disagreement("model-out-of-fuel", dict(case, text=text), "fuel", None)
-        model = norm(ans)
+    try:
+        orc = a05.Oracle(lib)
+        orc.flat(target)
+        sole = set(orc.sole_decl)
+    except a05.Reject:
+        sole = set()
+    if drv is not None:
+        model = norm(ans, sole=sole)
     obs = a05.py_flatten(text, target)
     rep = dict(case, text=text)
     r = a05.oracle_c07(lib, target, obs)
@@ -130,7 +140,7 @@ def check_case(ctx, case, drv, stream="main"):
         ctx.violation(r[0], rep, expected=r[1], observed=r[2], kind="input")
     ctx.count("impl-" + ("ok" if obs["ok"] else obs["err"]))
     if model is not None:
-        o = norm(obs)
+        o = norm(obs, sole=sole)
         if model != o:
             what = "status" if model["ok"] != o["ok"] else (
                 "variables" if model["vars"] != o["vars"] else
@@ -141,8 +151,14 @@ def check_case(ctx, case, drv, stream="main"):
     return obs
 
 
-def gen_case(rng, quick):
+def gen_case(rng, quick, compete=False):
     n = rng.choice([2, 3, 4, 5, 6] if quick else [2, 3, 4, 5, 6, 7])
+    if compete:
+        # declarations with equations / attribute expressions over sibling variables that are also
+        # modified from enclosing classes and extends clauses (several levels on one attribute)
+        g = a05.Gen(rng, n_classes=max(n, 3), mod_rate=0.9, p_nested=rng.choice([0.1, 0.2]), p_pkg=0.4, ref_rate=0.7,
+                    p_compete=rng.choice([0.5, 0.8])).build()
+        return dict(lib=g.spelled(lambda i: "S"), target=g.target)
     g = a05.Gen(rng, n_classes=n, mod_rate=rng.choice([0.3, 0.6, 0.8]), p_nested=rng.choice([0.15, 0.3, 0.45]),
                 p_pkg=0.5, ref_rate=0.5).build()
     lib = g.spelled(lambda i: "S")
@@ -187,6 +203,26 @@ def run(ctx):
         ctx.count("classes-%d" % sum(1 for _ in a05.Index(case["lib"]).cls))
         shape(ctx, case["lib"], case["target"])
         check_case(ctx, case, drv, "main")
+    # competing stream (after the main stream, which keeps its random numbers): modified declarations
+    n_comp = 70 if quick else 1200
+    done_comp = tries = 0
+    while done_comp < n_comp and tries < 20 * n_comp:
+        tries += 1
+        if ctx.time_left() < 0:
+            ctx.notes.append("stopped by time budget after %d competing-stream cases" % done_comp)
+            break
+        case = gen_case(ctx.rng, quick, compete=True)
+        trig = a05.triggers(case["lib"], case["target"])
+        if trig & ({"ILLEGAL", "ILLEGAL-LOCAL"} | BLOCKING):
+            ctx.count("competing-stream-skipped-" + ("illegal" if trig & {"ILLEGAL", "ILLEGAL-LOCAL"} else "open-finding"))
+            continue
+        done_comp += 1
+        ctx.count("stream-competing")
+        ctx.case(case, nontrivial=nontrivial(case["lib"], case["target"]))
+        for lb in a05.compete_shape(case["lib"], case["target"]):
+            ctx.count("competing:" + lb)
+        check_case(ctx, case, drv, "competing")
+    ctx.extra["competing_stream_cases"] = done_comp
     ctx.extra["main_cases"] = done_main
     ctx.extra["finding_stream_cases"] = done_find
 
@@ -195,7 +231,7 @@ def search(ctx):
     """A tie is broken and no violation was seen yet: more libraries, direct oracle only."""
     n = 0
     while ctx.time_left() > 0 and not ctx.violations:
-        case = gen_case(ctx.rng, False)
+        case = gen_case(ctx.rng, False, compete=n % 2 == 1)
         if a05.triggers(case["lib"], case["target"]) & (BLOCKING | {"ILLEGAL", "ILLEGAL-LOCAL"}):
             continue
         n += 1
